@@ -19,11 +19,13 @@ def run(ctx):
     deep = {"module": "Gen_C01.tla", "cfg": "Gen_C01_deep.cfg", "name": "deep"}
     # several datagrams read by one processing call
     batch = {"module": "GenBatch.tla", "cfg": "GenBatch.cfg", "name": "batch"}
+    # back-off arithmetic: dozens of passes over the server list (more than the width of the type the doubling uses)
+    backoff = {"module": "GenBackoff.tla", "cfg": "GenBackoff.cfg", "name": "backoff"}
     if ctx.quick:
-        gens = [{"module": "Gen_C07.tla", "cfg": "Gen_C07_quick.cfg", "name": "bfs"}, lat, deep, batch]
+        gens = [{"module": "Gen_C07.tla", "cfg": "Gen_C07_quick.cfg", "name": "bfs"}, lat, deep, batch, backoff]
     else:
         gens = [{"module": "Gen_C07.tla", "cfg": "Gen_C07_thorough.cfg", "name": "bfs"},
-                {"module": "Gen_C07.tla", "cfg": "Gen_C07_sim.cfg", "name": "sim", "simulate": 2000, "depth": 14}, lat, deep, batch]
+                {"module": "Gen_C07.tla", "cfg": "Gen_C07_sim.cfg", "name": "sim", "simulate": 2000, "depth": 14}, lat, deep, batch, backoff]
     simlib.engine_check(ctx, gens, FACETS, labels=LABELS, selftests=mutators.RETRY)
     extra(ctx)
 
